@@ -458,7 +458,8 @@ class Run:
             self.dumps = new_dumps
             return
         cls, reason = fm.classify(op, reply)
-        self.events.append([opdesc, cls, reason, outcome])
+        self.events.append([opdesc, cls, reason, outcome,
+                            dg.sha([reply.get("value"), reply.get("uploaded"), reply.get("target")])[:16]])
         self.count(f"class:{cls}:{reason}")
         flag = self._touch_flag(op, reply)
         self.sets["triples"].add(f"{op['op']}|{cls}:{reason}|{outcome.split(':')[0]}|{flag}")
